@@ -418,8 +418,16 @@ def coerce_hint_any(hint: Hint) -> Hint:
         #FIXME: [SPEED] Globalize the
         #_hint_repr_to_hint.cache_or_get_cached_value() bound method and call
         #that globalized bound method here instead as a negligible speedup.
-        hint = _hint_repr_to_hint.cache_or_get_cached_value(  # type: ignore[return-value]
+        hint_cached = _hint_repr_to_hint.cache_or_get_cached_value(
             key=get_hint_repr(hint), value=hint)
+
+        # If the hint previously cached under this representation is equal to
+        # this hint, deduplicate this hint to that hint. Distinct hints may
+        # share the same representation (e.g., "list[MuhClass]" subscripted by
+        # two different classes both named "MuhClass", as after redefining or
+        # reloading a class), in which case this hint is preserved as is.
+        if hint_cached == hint:
+            hint = hint_cached  # type: ignore[assignment]
     # Else, this hint is (hopefully) self-caching.
 
     # ..................{ RETURN                             }..................
